@@ -228,6 +228,23 @@ Definition o14_step (prev : mgr) (s : ostep) : bool :=
       | XRot fl => bound14 (s_state s) && policy14 prev (s_state s) rates fl
       | _ => false
       end
+  | OTick =>
+      (* the timer's own wrapper (timeout_change_conn_state): the round advances; while some peer has not reported
+         both rates nothing else happens; otherwise the rotation is run on the rates the peers reported (download
+         rates once everything is owned, upload rates before) and its result is broadcast: the same policy, with
+         whatever order the implementation breaks ties in *)
+      let next := s_state s in
+      let all_rates := forallb (fun kp => is_some (p_drate (snd kp)) && is_some (p_urate (snd kp))) (m_peers prev) in
+      let seeder := forallb is_have (m_status prev) in
+      let rates := map (fun kp => (fst kp, match (if seeder then p_drate (snd kp) else p_urate (snd kp)) with Some r => r | None => 0 end))
+                       (m_peers prev) in
+      (m_round next =? (m_round prev + 1) mod MAX_OPTIMISTIC_ROUNDS) &&
+      (if all_rates then
+         match s_bc s with
+         | [BOwnState fl] => bound14 next && policy14 prev next rates fl
+         | _ => false
+         end
+       else peers_eqb (m_peers prev) (m_peers next) && match s_bc s with [] => true | _ => false end)
   | _ => match s_res s with XPanic => true | _ => bound14 (s_state s) end
   end.
 
